@@ -633,6 +633,9 @@ func runC17(r *Run) {
 	st := r.Rule("C17.string", "URI.String = scheme \":\" JoinHostPort(host, port) and appends ?transport=<proto> exactly for turn and turns", 4)
 	checkURIString(r, st, uc, schemeF, hostF, portF, protoF)
 	st.Done()
+	fd := r.Rule("C17.fields", "every field of URI that ParseURI fills with a non-zero value is one that URI.String reads: what was parsed can be printed again, so ParseURI(u.String()) can give back u", 4)
+	checkURIFields(r, fd)
+	fd.Done()
 
 	// ---- dial
 	dl := r.Rule("C17.dial", "DialURI over all scheme x transport combinations: stun -> plain UDP; turn -> plain UDP, or TCP for transport tcp; turns+udp -> DTLS over DialUDP; stuns|turns + tcp -> TLS over TCP; ServerName = Host set unconditionally on a private copy of the config; every other combination returns ErrUnsupportedURI without dialling", 15)
@@ -798,6 +801,31 @@ func checkParsePerScheme(r *Run, rc *RuleCtx, parse *ssa.Function, uc *uriConsts
 			} else {
 				v := c.Resolve(protoStores.stores[i-1].Val)
 				if cv, ok := constInt(v); ok {
+					// a path on which the stored constant contradicts a later test of the field (stored Unknown, then
+					// took the "not Unknown" side of `if uri.Proto == Unknown { default }`) is not an execution
+					infeasible := false
+					for _, pc := range c.PathConds() {
+						bo, isB := c.Resolve(pc.Cond).(*ssa.BinOp)
+						if !isB || (bo.Op != token.EQL && bo.Op != token.NEQ) {
+							continue
+						}
+						k, isK := constInt(bo.Y)
+						if !isK || !valueIsLoadOfField(stripConvs(bo.X), protoF) {
+							continue
+						}
+						ld, _ := stripConvs(bo.X).(ssa.Instruction)
+						if ld == nil || !instrDominates(protoStores.stores[i-1], ld) {
+							continue
+						}
+						holds := (k == cv) == (bo.Op == token.EQL)
+						if holds != pc.Val {
+							infeasible = true
+						}
+					}
+					if infeasible {
+						nSucc--
+						return
+					}
 					finals[fmt.Sprintf("const %d", cv)] = true
 				} else if cv, ok := constOfTableLoad(p, v); ok {
 					finals[fmt.Sprintf("const %d", cv)] = true
@@ -807,6 +835,9 @@ func checkParsePerScheme(r *Run, rc *RuleCtx, parse *ssa.Function, uc *uriConsts
 					} else {
 						finals["?"+exprDepth(v, 0)] = true
 					}
+				} else if cc, ok := stripConvs(deref(v)).(*ssa.Call); ok && p.Fn("NewProtoType") != nil && callsFn(cc, p.Fn("NewProtoType")) && len(cc.Call.Args) == 1 && fromTransportQuery(cc.Call.Args[0]) {
+					// the query's transport value converted in place (the helper's body is part of ParseURI)
+					finals["query"] = true
 				} else {
 					finals["?"+exprDepth(v, 0)] = true
 				}
@@ -859,9 +890,47 @@ func checkParsePerScheme(r *Run, rc *RuleCtx, parse *ssa.Function, uc *uriConsts
 	}
 }
 
+// fromTransportQuery: v is the value of the "transport" key of a parsed query (Values.Get("transport"), or the
+// first element of values["transport"]).
+func fromTransportQuery(v ssa.Value) bool {
+	v = deref(v)
+	if c, ok := v.(*ssa.Call); ok && isMethodCall(c, "net/url", "Values", "Get") && len(c.Call.Args) == 2 {
+		if s, isS := constString(c.Call.Args[1]); isS && s == "transport" {
+			return true
+		}
+	}
+	if ld, ok := v.(*ssa.UnOp); ok && ld.Op == token.MUL {
+		if ia, isIA := ld.X.(*ssa.IndexAddr); isIA {
+			if lk, isLk := ia.X.(*ssa.Lookup); isLk {
+				if ks, isS := constString(lk.Index); isS && ks == "transport" {
+					return true
+				}
+			}
+		}
+	}
+	if ph, ok := v.(*ssa.Phi); ok {
+		for _, e := range ph.Edges {
+			if !fromTransportQuery(e) {
+				if c, isC := e.(*ssa.Const); isC && c.Value != nil && c.Value.ExactString() == `""` {
+					continue
+				}
+				return false
+			}
+		}
+		return len(ph.Edges) > 0
+	}
+	return false
+}
+
 func checkParseProto(r *Run, rc *RuleCtx, uc *uriConsts) {
 	p := r.P
 	fn := p.Fn("parseProto")
+	if fn == nil {
+		// the query handling sits in ParseURI itself (written there, or a differently shaped helper that the
+		// normalisation merged into it): the same conditions are looked for there, and each must lead to an error
+		// return whenever it holds
+		fn = p.Fn("ParseURI")
+	}
 	if fn == nil {
 		rc.Fail("parseProto", "not found")
 		return
@@ -961,6 +1030,87 @@ func checkParseProto(r *Run, rc *RuleCtx, uc *uriConsts) {
 		rc.Instance("parseProto|"+n, true, nil)
 		if !ok {
 			rc.Violation(fn, fn.Pos(), "parseProto: "+n, "RFC 7065: the only query is ?transport=udp|tcp")
+		}
+	}
+}
+
+// checkURIFields: see rule C17.fields.
+func checkURIFields(r *Run, rc *RuleCtx) {
+	p := r.P
+	parse, str := p.Fn("ParseURI"), p.Meth("URI", "String")
+	uriT := p.Named("URI")
+	if parse == nil || str == nil || uriT == nil {
+		rc.Fail("ParseURI / URI.String", "not found")
+		return
+	}
+	st := uriT.Underlying().(*types.Struct)
+	written := map[*types.Var]ssa.Instruction{}
+	// what ParseURI (with the helpers the normalisation merged into it, and module functions it hands the URI to) stores
+	seen := map[*ssa.Function]bool{}
+	var walk func(fn *ssa.Function, depth int)
+	walk = func(fn *ssa.Function, depth int) {
+		if fn == nil || seen[fn] || fn.Blocks == nil || depth > 3 || !p.isLibFn(fn) {
+			return
+		}
+		seen[fn] = true
+		r.Analysed(fn)
+		eachInstr(fn, func(b *ssa.BasicBlock, i int, in ssa.Instruction) {
+			if s, ok := in.(*ssa.Store); ok {
+				if fa, isFA := s.Addr.(*ssa.FieldAddr); isFA {
+					fv := fieldOfAddr(fa)
+					for k := 0; k < st.NumFields(); k++ {
+						if st.Field(k) == fv {
+							// storing the zero value is not information
+							if c, isC := s.Val.(*ssa.Const); isC && (c.Value == nil || c.Value.ExactString() == `""` || c.Value.ExactString() == "0") {
+								continue
+							}
+							written[fv] = in
+						}
+					}
+				}
+			}
+			if c, ok := in.(ssa.CallInstruction); ok {
+				if sc := c.Common().StaticCallee(); sc != nil {
+					for _, a := range c.Common().Args {
+						if pt, isP := a.Type().Underlying().(*types.Pointer); isP && types.Identical(pt.Elem(), uriT) {
+							walk(sc, depth+1)
+						}
+					}
+				}
+			}
+		})
+	}
+	walk(parse, 0)
+	read := map[*types.Var]bool{}
+	seenS := map[*ssa.Function]bool{}
+	var walkS func(fn *ssa.Function, depth int)
+	walkS = func(fn *ssa.Function, depth int) {
+		if fn == nil || seenS[fn] || fn.Blocks == nil || depth > 3 || !p.isLibFn(fn) {
+			return
+		}
+		seenS[fn] = true
+		r.Analysed(fn)
+		eachInstr(fn, func(b *ssa.BasicBlock, i int, in ssa.Instruction) {
+			switch x := in.(type) {
+			case *ssa.FieldAddr:
+				read[fieldOfAddr(x)] = true
+			case *ssa.Field:
+				if n, ok := x.X.Type().(*types.Named); ok && n == uriT {
+					read[st.Field(x.Field)] = true
+				}
+			}
+			if c, ok := in.(ssa.CallInstruction); ok {
+				walkS(c.Common().StaticCallee(), depth+1)
+			}
+		})
+	}
+	walkS(str, 0)
+	for k := 0; k < st.NumFields(); k++ {
+		fv := st.Field(k)
+		at, w := written[fv]
+		rc.Instance("URI."+fv.Name(), true, map[string]interface{}{"field": fv.Name(), "set_by_ParseURI": w, "printed_by_String": read[fv]})
+		if w && !read[fv] {
+			rc.Violation(at.Parent(), instrPos(at), "URI."+fv.Name()+" parsed but not printed", "ParseURI fills a field that URI.String never looks at: ParseURI(u.String()) cannot give back that part, so an accepted URI does not survive the round trip")
 		}
 	}
 }
